@@ -104,6 +104,48 @@ def run(tier):
                                             filetext=T(join_words(r_, g.spell_line(cfg, [u])) + "\n"), envstr=[], prog=T("prog"),
                                             tag={"k": "override"}))
         blocks.append((cfg, acts))
+    # ---- T2b: the separate values of a multi-value argument continue on the next file line / in the environment
+    #           variable / on the command line ("same words on argv": the argument used last keeps taking free values)
+    for _ in range(60 if tier == "quick" else 2000):
+        cfg = g.cfg(nargs=r_.randint(2, 4), constraints=False, allow_pos=False, kinds=["flag", "int", "vecint", "vecstr", "listint", "dequeint"])
+        conts = [i + 1 for i, a in enumerate(cfg["args"]) if arggen.is_cont(a["kind"])]
+        if not conts:
+            continue
+        for a in cfg["args"]:
+            a["mand"] = False
+            if arggen.is_cont(a["kind"]):
+                a["card"] = {"t": "dflt", "a": 0, "b": 0}; a["multi"] = True; a["uniq"] = "no" if a["uniq"] == "error" else a["uniq"]
+        acts = []
+        for _ in range(nlines):
+            i = r_.choice(conts)
+            a = cfg["args"][i - 1]
+            vals = [g.good_value(a) for _ in range(r_.randint(2, 6))]
+            if any(v is None or v.startswith("-") for v in vals):
+                continue
+            key = ("-" + chr(a["s"])) if a["s"] else "--" + S(a["l"])
+            words = [key] + vals                                   # every value a separate word
+            others = [u for u in (gen_valid(g, cfg) or []) if u[0] != i and not arggen.is_cont(cfg["args"][u[0] - 1]["kind"])]
+            tailw = g.spell_line(cfg, others)
+            # cut the word list into file lines | environment | argv
+            c1 = r_.randint(1, len(words)); c2 = r_.randint(c1, len(words))
+            how = r_.choice(["file", "env", "both"])
+            if how == "file":
+                fw, ew, aw = words[:c1], [], words[c1:]
+            elif how == "env":
+                fw, ew, aw = [], words[:c1], words[c1:]
+            else:
+                fw, ew, aw = words[:c1], words[c1:c2], words[c2:]
+            ftext = ""
+            k = 0
+            while k < len(fw):
+                m = r_.randint(1, len(fw) - k)
+                ftext += join_words(r_, fw[k:k + m]) + "\n"
+                if r_.random() < 0.3:
+                    ftext += r_.choice(["# comment\n", "\n"])
+                k += m
+            acts.append(eval_action(aw + tailw, presrc=how, filetext=T(ftext), envstr=T(join_words(r_, ew)) if ew else [], prog=T("prog"),
+                                    tag={"k": "src-multi"}))
+        blocks.append((cfg, acts))
     # ---- T3: argument-file argument (addArgumentFile): files that include files, values before and after the include,
     #          overridden by a later command line value; missing files
     for _ in range(60 if tier == "quick" else 2000):
